@@ -372,11 +372,63 @@ def _checksum (ctx, repo):
   ctx.ob('R-AGREE', f, "the end-around carry is folded until it fits 16 bits (two folds or a loop)", good,
          "%d fold step(s), %d fold loop(s)" % (folds, loops) if good else
          "only %d carry-fold step: when the first fold itself overflows 16 bits the extra carry is dropped and the checksum differs from RFC 1071" % folds, f, 'D5')
+  checksum_samples(ctx, repo)
   rv = q.returns_of(f.node)
   good = bool(rv) and '~' in norm(rv[-1].value) and '0xffff' in norm(rv[-1].value).lower() or (rv and '65535' in norm(rv[-1].value))
   ctx.ob('R-AGREE', f, "the result is the 16-bit one's complement", bool(good), norm(rv[-1].value) if rv else "?", f, 'D5')
   skip = [n for n in g.nodes if n.kind == 'continue' and any('skip_word' in x for x in q.fact_strs(g, n))]
   ctx.ob('R-AGREE', f, "exactly the skip word is left out of the sum", bool(skip), "continue under i == skip_word", f, 'D5')
+
+def checksum_samples (ctx, repo, clause='D5'):
+  """checksum() evaluated by the analyser's own interpreter on sample inputs (odd / even length, sums whose first fold carries
+  again, a skipped word, a non-zero start) and compared with an RFC 1071 reference computed here"""
+  import array as _array, socket as _socket, struct as _struct
+  mod = repo.mod(PK + '.packet_utils'); f = mod.funcs.get('checksum')
+  if f is None: raise AnalysisError("packet_utils.checksum vanished")
+  g = q.cfg_of(f)
+  def ref (data, start, skip):
+    tot = start
+    words = [data[i:i + 2] for i in range(0, len(data) - len(data) % 2, 2)]
+    for i, w in enumerate(words):
+      if skip is not None and i == skip: continue
+      tot += _struct.unpack('H', w)[0]
+    if len(data) % 2: tot += _struct.unpack('H', data[-1:] + b'\0')[0]
+    while tot >> 16: tot = (tot >> 16) + (tot & 0xffff)
+    return _socket.ntohs(~tot & 0xffff)
+  def hook (call, env=None):
+    fn = call.func
+    nm = call_name(call)
+    try:
+      if nm == 'array' and len(call.args) == 2:
+        a0 = q.eval_env2(repo, mod, call.args[0], env, None); a1 = q.eval_env2(repo, mod, call.args[1], env, None)
+        return (True, list(_array.array(a0, a1)))
+      if nm in ('ntohs', 'htons') and len(call.args) == 1:
+        return (True, _socket.ntohs(q.eval_env2(repo, mod, call.args[0], env, None) & 0xffff))
+      if nm == 'unpack' and isinstance(fn, ast.Attribute) and norm(fn.value) == 'struct' and len(call.args) == 2:
+        return (True, _struct.unpack(q.eval_env2(repo, mod, call.args[0], env, None), q.eval_env2(repo, mod, call.args[1], env, None)))
+    except Exception:
+      return (False, None)
+    return (False, None)
+  hook.wants_env = True
+  S = [(b'\xff\xff\xff\xff\x01\x00', 0, None), (b'\xff\xff\xff\xff\x00\x01', 0, None), (b'\x45\x00\x00\x1c\x00\x01\x00\x00\x40\x11\x00\x00\x0a\x00\x00\x01\x0a\x00\x00\x02', 0, None),
+       (b'\x45\x00\x00\x1c\x00\x01\x00\x00\x40\x11\xab\xcd\x0a\x00\x00\x01\x0a\x00\x00\x02', 0, 5), (b'\x01\x02\x03', 0, None), (b'\xff\xfe\xff\xff\xff', 0, None),
+       (b'\x12\x34\x56\x78', 0x1fffe, None), (b'\xff\xff' * 5, 0, 2), (b'', 0, None), (b'\x80', 0xffff, None), (b'\xff\xff\xff\xff\x01\x00\x00\x00', 0, 3)]
+  wrong = []; unknown = 0
+  for data, start, skip in S:
+    env = q.Env({f.params[0]: data, f.params[1]: start, f.params[2]: skip}, [], hook)
+    res = set()
+    for p_, e_ in q.paths_under(repo, mod, g, env, g.entry, [n for n in g.nodes if n.kind == 'return'], None, limit=20):
+      try: res.add(q.eval_env2(repo, mod, p_[-1].ast.value, e_, None))
+      except Exception: res.add('?')
+    if len(res) != 1 or '?' in res or not isinstance(list(res)[0], int): unknown += 1; continue
+    got = list(res)[0]
+    if got != ref(data, start, skip): wrong.append((data, start, skip, got, ref(data, start, skip)))
+  if unknown:
+    ctx.undecided('R-AGREE', f, "checksum() equals the RFC 1071 sum on the sample inputs", "not evaluable for %d of %d samples" % (unknown, len(S)), f, clause)
+  else:
+    ctx.ob('R-AGREE', f, "checksum() equals the RFC 1071 sum on the sample inputs", not wrong, "%d samples (carry after the first fold, odd length, skipped word, non-zero start)" % len(S) if not wrong else
+           "checksum(%r, %s, %s) evaluates to 0x%04x, RFC 1071 gives 0x%04x: every header whose 16-bit sum behaves like this sample is emitted with a checksum receivers reject"
+           % (wrong[0][0], wrong[0][1], wrong[0][2], wrong[0][3], wrong[0][4]), f, clause)
 
 def _skipwords (ctx, repo):
   """checksum(ph + payload, 0, K): K == (len(pseudo header) + offset of the checksum field) / 2"""
